@@ -71,7 +71,7 @@ def run(tier, only=None):
         "evaluations": len(recs),
         "distinct_nontrivial": sum(1 for r in recs if r["calls"]),
         "rule": "every scenario of spec/LocalRunReq.tla (8 file configurations x docker metadata x output directory x 3 backends x translation ok/fails x "
-                "4 container outcomes x 3 earlier uses of the same dataset object (none, a query with docker metadata that ran, one that failed) = %d), each in a fresh interpreter; non-trivial = the scenario reaches the container start" % len(scs),
+                "5 container outcomes (one of them the real runner.sh of the package run in the C16 namespace sandbox on the volumes and command docker.run received) x 3 earlier uses of the same dataset object (none, a query with docker metadata that ran, one that failed) = %d), each in a fresh interpreter; non-trivial = the scenario reaches the container start" % len(scs),
         "exhaustive": True,
         "raised": sum(1 for r in recs if r["raised"]),
         "returned": sum(1 for r in recs if r["returned"]),
